@@ -746,6 +746,31 @@ impl Exec {
         // returns (string, class, id)
         if let Some(id) = v.as_i64() {
             (self.uni.addr_strings[&id].clone(), "ok".into(), id)
+        } else if v.is_object() {
+            // another spelling of an address of the universe: bech32 / bech32m text may be written all upper-case
+            // (BIP-173; same address), mixed case is invalid, a changed character breaks the checksum
+            let id = v["id"].as_i64().unwrap();
+            let s = self.uni.addr_strings[&id].clone();
+            let is_bech = ["bc1", "tb1", "bcrt1"].iter().any(|p| s.starts_with(p));
+            match v["sp"].as_str().unwrap_or("") {
+                "upper" if is_bech => (s.to_uppercase(), "ok".into(), id),
+                "mixed" if is_bech => {
+                    // upper-case the last letter of the data part only
+                    let mut cs: Vec<char> = s.chars().collect();
+                    if let Some(i) = cs.iter().rposition(|c| c.is_ascii_lowercase()) {
+                        cs[i] = cs[i].to_ascii_uppercase();
+                    }
+                    (cs.into_iter().collect(), "malformed".into(), 0)
+                }
+                "badsum" => {
+                    let mut cs: Vec<char> = s.chars().collect();
+                    let n = cs.len();
+                    cs[n - 1] = if cs[n - 1] == 'q' { 'p' } else { 'q' };
+                    (cs.into_iter().collect(), "malformed".into(), 0)
+                }
+                "space" => (format!(" {s}"), "malformed".into(), 0),
+                _ => (s, "ok".into(), id),
+            }
         } else {
             match v.as_str().unwrap() {
                 "malformed" => ("this is not an address".into(), "malformed".into(), 0),
